@@ -32,17 +32,28 @@ type Op struct {
 	W int    `json:"w"`
 	C int    `json:"c"`
 	D bool   `json:"d"` // add: detached HEAD
+	// F (only meaningful with Case.Keep): the step is performed through a handle
+	// opened for this step alone (and closed after it) instead of through the
+	// long-lived handle of the worktree / the long-lived manager.
+	F bool `json:"f,omitempty"`
 }
 
-// Case is the operation list.
+// Case is the operation list. Keep: one go-git repository handle on the main
+// worktree and one on every linked worktree are opened once (main: at the
+// start, linked: right after Add) and stay open until the worktree is removed
+// or the case ends; the steps run through them, and after every step every
+// such handle has to see what a handle opened after the step and git see.
+// (Zero value = handles opened per step only, as in cases recorded earlier.)
 type Case struct {
-	Ops []Op `json:"ops"`
+	Ops  []Op `json:"ops"`
+	Keep bool `json:"keep,omitempty"`
 }
 
 var kinds = []string{"add", "add", "remove", "commit", "commit", "commit", "gitcommit", "gitcommit", "checkout", "checkout", "switch", "reset", "reset"}
 
 func gen(t *rapid.T, r *evid.Recorder) Case {
 	var c Case
+	c.Keep = rapid.IntRange(0, 3).Draw(t, "keep") != 0
 	// every sequence starts by adding a linked worktree: the property is about them.
 	// The generator tracks which slots should be alive so that most ops land on live ones.
 	live := map[int]bool{0: true}
@@ -59,7 +70,7 @@ func gen(t *rapid.T, r *evid.Recorder) Case {
 		return rapid.SampledFrom(cand).Draw(t, label), true
 	}
 	w0 := rapid.IntRange(1, 3).Draw(t, "w0")
-	c.Ops = append(c.Ops, Op{K: "add", W: w0, C: rapid.IntRange(0, 1).Draw(t, "c0"), D: rapid.Bool().Draw(t, "d0")})
+	c.Ops = append(c.Ops, Op{K: "add", W: w0, C: rapid.IntRange(0, 1).Draw(t, "c0"), D: rapid.Bool().Draw(t, "d0"), F: c.Keep && rapid.IntRange(0, 2).Draw(t, "f0") == 0})
 	live[w0] = true
 	n := rapid.IntRange(1, 8).Draw(t, "nops")
 	for i := 0; i < n; i++ {
@@ -82,7 +93,7 @@ func gen(t *rapid.T, r *evid.Recorder) Case {
 			k = "commit"
 			w, _ = pick(true, 0, "wfallback")
 		}
-		c.Ops = append(c.Ops, Op{K: k, W: w, C: rapid.IntRange(0, 7).Draw(t, "c"), D: rapid.Bool().Draw(t, "d")})
+		c.Ops = append(c.Ops, Op{K: k, W: w, C: rapid.IntRange(0, 7).Draw(t, "c"), D: rapid.Bool().Draw(t, "d"), F: c.Keep && rapid.IntRange(0, 2).Draw(t, "f") == 0})
 	}
 	return c
 }
@@ -247,6 +258,204 @@ func check(c Case) evid.Result {
 		}
 		return n
 	}
+	// long-lived handles (Case.Keep): slot -> repository, opened once
+	kept := map[int]*git.Repository{}
+	var keptMgr *xworktree.Worktree
+	defer func() {
+		for _, r := range kept {
+			r.Close()
+		}
+	}()
+	if c.Keep {
+		r, err := git.PlainOpen(mainDir)
+		if err != nil {
+			panic("INFRA: open main: " + err.Error())
+		}
+		kept[0] = r
+		if keptMgr, err = xworktree.New(r.Storer); err != nil {
+			panic("INFRA: manager: " + err.Error())
+		}
+		lab["handles:kept-open"] = true
+	} else {
+		lab["handles:per-step"] = true
+	}
+	manager := func(fresh bool) *xworktree.Worktree {
+		if keptMgr != nil && !fresh {
+			return keptMgr
+		}
+		mr, err := git.PlainOpen(mainDir)
+		if err != nil {
+			panic("INFRA: open main: " + err.Error())
+		}
+		mgr, err := xworktree.New(mr.Storer)
+		if err != nil {
+			panic("INFRA: manager: " + err.Error())
+		}
+		return mgr
+	}
+	// git's answers about a commit never change: asked once per commit
+	chainOf := map[string][]string{} // commit -> rev-list
+	treeOf := map[string][]string{}  // commit -> "mode hash\tname" of ls-tree -r
+	gitChain := func(h string) []string {
+		if v, ok := chainOf[h]; ok {
+			return v
+		}
+		v := strings.Fields(gitx.Must(mainDir, "rev-list", h))
+		chainOf[h] = v
+		return v
+	}
+	gitTree := func(h string) []string {
+		if v, ok := treeOf[h]; ok {
+			return v
+		}
+		var v []string
+		for _, l := range strings.Split(strings.TrimRight(gitx.Must(mainDir, "ls-tree", "-r", h), "\n"), "\n") {
+			if l == "" {
+				continue
+			}
+			// "<mode> blob <hash>\t<name>"
+			f := strings.SplitN(l, "\t", 2)
+			g := strings.Fields(f[0])
+			if len(f) != 2 || len(g) != 3 {
+				panic("INFRA: ls-tree line " + l)
+			}
+			v = append(v, g[0]+" "+g[2]+"\t"+f[1])
+		}
+		sort.Strings(v)
+		treeOf[h] = v
+		return v
+	}
+	// observe: everything handle r (on worktree s) can read has to be what git
+	// reports after the step: own HEAD and index (isolated), branches and the
+	// objects behind the tip of every worktree (shared).
+	observe := func(i int, opName, who string, r *git.Repository, s *wt, branches map[string]string) {
+		kind := "linked"
+		if s.slot == 0 {
+			kind = "main"
+		}
+		sig := func(what string) string { return fmt.Sprintf("C33/%s:%s-handle(%s):%s", opName, who, kind, what) }
+		pre := fmt.Sprintf("step %d, after %s: %s go-git handle on %s (slot %d): ", i, opName, who, s.dir, s.slot)
+		// own HEAD
+		hr, err := r.Reference(plumbing.HEAD, false)
+		switch {
+		case err != nil:
+			fail(sig("HEAD-unreadable"), "%sHEAD: %v", pre, err)
+		case s.branch == "" && (hr.Type() != plumbing.HashReference || hr.Hash().String() != s.head):
+			fail(sig("HEAD-differs"), "%sHEAD = %v, git and the model: detached at %s", pre, hr, s.head)
+		case s.branch != "" && (hr.Type() != plumbing.SymbolicReference || hr.Target() != plumbing.NewBranchReferenceName(s.branch)):
+			fail(sig("HEAD-differs"), "%sHEAD = %v, git and the model: on refs/heads/%s", pre, hr, s.branch)
+		}
+		if h, err := r.Head(); err != nil || h.Hash().String() != s.head {
+			fail(sig("HEAD-resolves-differently"), "%sHead() = %v (%v), git and the model: %s", pre, h, err, s.head)
+		}
+		// shared refs, both directions
+		got := map[string]string{}
+		it, err := r.References()
+		if err != nil {
+			fail(sig("References-error"), "%sReferences(): %v", pre, err)
+		} else {
+			it.ForEach(func(ref *plumbing.Reference) error {
+				if ref.Type() == plumbing.HashReference && ref.Name().IsBranch() {
+					got[ref.Name().Short()] = ref.Hash().String()
+				}
+				return nil
+			})
+			var names []string
+			for b := range branches {
+				names = append(names, b)
+			}
+			for b := range got {
+				if _, ok := branches[b]; !ok {
+					names = append(names, b)
+				}
+			}
+			sort.Strings(names)
+			for _, b := range names {
+				if got[b] != branches[b] {
+					fail(sig("branch-listing-differs"), "%sReferences(): refs/heads/%s = %q, git for-each-ref: %q", pre, b, got[b], branches[b])
+					break
+				}
+			}
+			for _, b := range names {
+				want, ok := branches[b]
+				if !ok {
+					continue
+				}
+				ref, err := r.Reference(plumbing.NewBranchReferenceName(b), true)
+				if err != nil || ref.Hash().String() != want {
+					fail(sig("ref-not-shared"), "%sReference(refs/heads/%s) = %v (%v), git: %s", pre, b, ref, err, want)
+					break
+				}
+			}
+		}
+		// shared objects: every commit ever made, and the whole content behind the tip of every worktree
+		for _, h := range commits {
+			if err := r.Storer.HasEncodedObject(plumbing.NewHash(h)); err != nil {
+				fail(sig("object-not-shared"), "%sHasEncodedObject(%s): %v; git cat-file -e finds it", pre, h, err)
+				break
+			}
+		}
+		for _, o := range slots {
+			if !o.live {
+				continue
+			}
+			whose := "own"
+			if o != s {
+				whose = "other-worktree"
+			}
+			cm, err := r.CommitObject(plumbing.NewHash(o.head))
+			if err != nil {
+				fail(sig("tip-of-"+whose+"-unreadable"), "%sCommitObject(%s) (HEAD of %s): %v", pre, o.head, o.dir, err)
+				continue
+			}
+			var chain []string
+			li, err := r.Log(&git.LogOptions{From: cm.Hash})
+			if err == nil {
+				err = li.ForEach(func(x *object.Commit) error { chain = append(chain, x.Hash.String()); return nil })
+			}
+			if want := gitChain(o.head); err != nil || strings.Join(chain, " ") != strings.Join(want, " ") {
+				fail(sig("log-of-"+whose+"-tip-differs"), "%sLog(%s) = %v (%v), git rev-list: %v", pre, o.head, chain, err, want)
+			}
+			var files []string
+			tr, err := cm.Tree()
+			if err == nil {
+				err = tr.Files().ForEach(func(f *object.File) error {
+					b, err := f.Contents()
+					if err != nil {
+						return fmt.Errorf("%s: %w", f.Name, err)
+					}
+					if id := fmt.Sprintf("%x", sha1.Sum([]byte(fmt.Sprintf("blob %d\x00%s", len(b), b)))); id != f.Hash.String() {
+						return fmt.Errorf("%s: content read hashes to %s, entry says %s", f.Name, id, f.Hash)
+					}
+					files = append(files, fmt.Sprintf("%06o %s\t%s", uint32(f.Mode), f.Hash, f.Name))
+					return nil
+				})
+			}
+			sort.Strings(files)
+			if want := gitTree(o.head); err != nil || strings.Join(files, "\n") != strings.Join(want, "\n") {
+				fail(sig("tree-of-"+whose+"-tip-differs"), "%sfiles of %s = %q (%v), git ls-tree -r: %q", pre, o.head, files, err, want)
+			}
+		}
+		// own index and status (git status is clean in every worktree: checked for the one
+		// operated on, unchanged bytes for the others)
+		if idx, err := r.Storer.Index(); err != nil {
+			fail(sig("index-unreadable"), "%sIndex(): %v", pre, err)
+		} else {
+			var ents []string
+			for _, e := range idx.Entries {
+				ents = append(ents, fmt.Sprintf("%06o %s\t%s", uint32(e.Mode), e.Hash, e.Name))
+			}
+			sort.Strings(ents)
+			if want := gitTree(s.head); strings.Join(ents, "\n") != strings.Join(want, "\n") {
+				fail(sig("index-differs"), "%sindex = %q, git (clean status at %s): %q", pre, ents, s.head, want)
+			}
+		}
+		if w, err := r.Worktree(); err != nil {
+			fail(sig("Worktree-error"), "%s%v", pre, err)
+		} else if st, err := w.Status(); err != nil || !st.IsClean() {
+			fail(sig("status-not-clean"), "%sStatus() = %q (%v); git status --porcelain is empty", pre, st.String(), err)
+		}
+	}
 	for i, op := range c.Ops {
 		fails = fails[:0]
 		x := slots[op.W%len(slots)]
@@ -276,14 +485,7 @@ func check(c Case) evid.Result {
 			if err := os.MkdirAll(x.dir, 0o755); err != nil {
 				panic("INFRA: " + err.Error())
 			}
-			mr, err := git.PlainOpen(mainDir)
-			if err != nil {
-				panic("INFRA: open main: " + err.Error())
-			}
-			mgr, err := xworktree.New(mr.Storer)
-			if err != nil {
-				panic("INFRA: manager: " + err.Error())
-			}
+			mgr := manager(op.F)
 			h := commits[op.C%len(commits)]
 			opts := []xworktree.Option{xworktree.WithCommit(plumbing.NewHash(h))}
 			if op.D {
@@ -297,6 +499,14 @@ func check(c Case) evid.Result {
 					x.branch = ""
 				}
 				performed = true
+				if c.Keep {
+					r, err := mgr.Open(osfs.New(x.dir, osfs.WithBoundOS()))
+					if err != nil {
+						fail("C33/"+opName+":Open-error", "step %d: open %s: %v", i, x.dir, err)
+					} else {
+						kept[x.slot] = r
+					}
+				}
 			} else {
 				fail("C33/"+opName+":error", "step %d: Add(%s at %s): %v", i, x.name, h, operr)
 			}
@@ -305,15 +515,14 @@ func check(c Case) evid.Result {
 				lab["skip:remove-dead-slot"] = true
 				continue
 			}
-			mr, err := git.PlainOpen(mainDir)
-			if err != nil {
-				panic("INFRA: open main: " + err.Error())
-			}
-			mgr, _ := xworktree.New(mr.Storer)
-			operr = mgr.Remove(x.name)
+			operr = manager(op.F).Remove(x.name)
 			if operr == nil {
 				x.live = false
 				performed = true
+				if r := kept[x.slot]; r != nil {
+					r.Close()
+					delete(kept, x.slot)
+				}
 			} else {
 				fail("C33/remove:error", "step %d: Remove(%s): %v", i, x.name, operr)
 			}
@@ -343,10 +552,14 @@ func check(c Case) evid.Result {
 				performed = true
 				break
 			}
-			repo, err := open(x)
-			if err != nil {
-				fail("C33/"+opName+":Open-error", "step %d: open %s: %v", i, x.dir, err)
-				break
+			repo, viaKept := kept[x.slot], true
+			if repo == nil || op.F {
+				var err error
+				if repo, err = open(x); err != nil {
+					fail("C33/"+opName+":Open-error", "step %d: open %s: %v", i, x.dir, err)
+					break
+				}
+				viaKept = false
 			}
 			w, err := repo.Worktree()
 			if err != nil {
@@ -386,7 +599,9 @@ func check(c Case) evid.Result {
 					x.head = h
 				}
 			}
-			repo.Close()
+			if !viaKept {
+				repo.Close()
+			}
 			if operr != nil {
 				fail("C33/"+opName+":error", "step %d %+v in %s: %v", i, op, x.dir, operr)
 			} else {
@@ -513,6 +728,46 @@ func check(c Case) evid.Result {
 						what = "listed-as-prunable"
 					}
 					fail(fmt.Sprintf("C33/%s:git-worktree-list:%s", opName, what), "step %d %+v: git worktree list: %s: git %q, model %q\n%s", i, op, k, got[k], want[k], out)
+				}
+			}
+			// (V) every handle that is open now -- the long-lived ones, and one opened after the
+			// step on every worktree -- reads the same shared refs and objects as git, and its own
+			// HEAD and index
+			branches := map[string]string{}
+			for _, l := range strings.Split(strings.TrimSpace(gitx.Must(mainDir, "for-each-ref", "--format=%(refname:lstrip=2) %(objectname)", "refs/heads")), "\n") {
+				if f := strings.Fields(l); len(f) == 2 {
+					branches[f[0]] = f[1]
+				}
+			}
+			madeObjects := op.K == "commit" || op.K == "gitcommit"
+			for _, s := range slots {
+				if !s.live {
+					continue
+				}
+				if r := kept[s.slot]; r != nil {
+					observe(i, opName, "kept", r, s, branches)
+					kind := "linked"
+					if s.slot == 0 {
+						kind = "main"
+					}
+					switch {
+					case s != x && madeObjects && op.K == "gitcommit":
+						lab["kept:"+kind+"-handle-reads-after-commit-by-git-elsewhere"] = true
+					case s != x && madeObjects:
+						lab["kept:"+kind+"-handle-reads-after-commit-by-other-handle"] = true
+					case s != x:
+						lab["kept:"+kind+"-handle-reads-after-other-op-elsewhere"] = true
+					case op.K == "gitcommit":
+						lab["kept:"+kind+"-handle-reads-after-git-commit-in-own-worktree"] = true
+					case op.F && op.K != "add":
+						lab["kept:"+kind+"-handle-reads-after-fresh-handle-op-in-own-worktree"] = true
+					}
+				}
+				if r, err := open(s); err != nil {
+					fail("C33/"+opName+":Open-error", "step %d: open %s: %v", i, s.dir, err)
+				} else {
+					observe(i, opName, "fresh", r, s, branches)
+					r.Close()
 				}
 			}
 		}
